@@ -1322,6 +1322,9 @@ class Worker(actor.RallyActor):
                     self.send(self.driver_actor, actor.BenchmarkFailure(f"Error in load generator [{self.worker_id}]", str(e)))
                 else:
                     self.logger.debug("Worker[%s] is ready for the next task.", str(self.worker_id))
+                    # the executor may have added samples after we have sent the current ones above. Send them now because the
+                    # sampler is replaced if more tasks are queued before the next join point.
+                    self.send_samples()
                     self.executor_future = None
                     self.drive()
             else:
